@@ -158,6 +158,7 @@ def run(ck):
     ck.coq_build(["props/C11.vo", "extract/C11_extract.vo"])
     ck.print_assumptions(["DSP.C11"], ["DSP.C11." + t for t in THEOREMS])
     ck.source_tie("scope_clear")
+    ck.source_tie("var")
     ck.hygiene()
     ck.ocaml_build()
     ck.harness_build(["c11"])
